@@ -128,7 +128,12 @@ class TemplateWriter(IWriter):
                 self.total_pages += 1
             else:
                 # The url is percent-encoded, the name of the file it designates is not.
-                with self.build_directory.joinpath(unquote(ob.url)).open('wb') as fobj:
+                path = self.build_directory.joinpath(unquote(ob.url))
+                if path.is_symlink():
+                    # A link to index.html left by an earlier run with a single root: 
+                    # the page replaces it, it is not written through it (over index.html).
+                    path.unlink()
+                with path.open('wb') as fobj:
                     self._writeDocsForOne(ob, fobj)
         for o in ob.contents.values():
             self._writeDocsFor(o)
